@@ -2,6 +2,7 @@
 //! at which tier. Everything here is a finite, explicitly enumerated space.
 
 use serde_json::{json, Value};
+use std::time::Instant;
 
 use crate::e1::{self, P};
 use crate::e2::{self, AsyncPlan};
@@ -896,4 +897,22 @@ pub fn sizes() {
             println!("{} {} total {} runs", prop.id(), tier.as_str(), total);
         }
     }
+}
+
+/// Debug aid: run the case of a replay file n times and report the slowest execution.
+pub fn stress(path: &str, n: u64) {
+    let text = std::fs::read_to_string(path).expect("read");
+    let v: Value = serde_json::from_str(&text).expect("json");
+    let r = &v["replay"];
+    let case: Case = serde_json::from_value(r["case"].clone()).expect("case");
+    let cfg: RunCfg = serde_json::from_value(r["cfg"].clone()).expect("cfg");
+    let mut worst = std::time::Duration::ZERO;
+    let mut outcomes = std::collections::BTreeMap::new();
+    for _ in 0..n {
+        let t = Instant::now();
+        let res = run_case(&case.u, &case.p, &cfg);
+        worst = worst.max(t.elapsed());
+        *outcomes.entry(res.outcome.short()).or_insert(0u64) += 1;
+    }
+    println!("runs={n} slowest={worst:?} outcomes={outcomes:?}");
 }
